@@ -115,8 +115,8 @@ func pipeAnalyse(src string) pipeResult {
 	return res
 }
 
-// pipeAnalysePkg runs the pipeline on one single-file package that may import the given dependencies (each
-// without imports of its own); it also returns the facts the package exported. Facts are handed over by
+// pipeAnalysePkg runs the pipeline on one single-file package that may import the given dependencies (listed in
+// dependency order; a dependency may import earlier ones); it also returns the facts the package exported. Facts are handed over by
 // reference, not through the gob codec (C06 decides the codec).
 func pipeAnalysePkg(path, fileName, src string, deps []pipeDep) (res pipeResult, facts []analysis.Fact) {
 	// the assertion aggregator's analyzer object is only a map key here (its initialiser refers to analyzers that are not run)
@@ -131,7 +131,7 @@ func pipeAnalysePkg(path, fileName, src string, deps []pipeDep) (res pipeResult,
 		if err != nil {
 			panic("dependency source does not parse: " + err.Error() + "\n" + d.src)
 		}
-		dp, err := (&types.Config{}).Check(d.path, fset, []*ast.File{df}, nil)
+		dp, err := (&types.Config{Importer: imp}).Check(d.path, fset, []*ast.File{df}, nil) // a dependency may import earlier ones
 		if err != nil {
 			panic("dependency source does not type-check: " + err.Error() + "\n" + d.src)
 		}
@@ -263,7 +263,7 @@ func pipeAnalysePkg(path, fileName, src string, deps []pipeDep) (res pipeResult,
 	return res, facts
 }
 
-var ndHarnesses = map[string]func(){"Harness_Pipe_Smoke": Harness_Pipe_Smoke, "Harness_P08": Harness_P08, "Harness_P01": Harness_P01, "Harness_P07": Harness_P07, "Harness_P01L": Harness_P01L, "Harness_P08_Ok": Harness_P08_Ok, "Harness_P01X": Harness_P01X, "Harness_P01R": Harness_P01R, "Harness_P13": Harness_P13, "Harness_P10": Harness_P10, "Harness_P09": Harness_P09, "Harness_P14": Harness_P14, "Harness_P12": Harness_P12, "Harness_P20": Harness_P20, "Harness_P10R": Harness_P10R, "Harness_P18": Harness_P18, "Harness_P13M": Harness_P13M}
+var ndHarnesses = map[string]func(){"Harness_Pipe_Smoke": Harness_Pipe_Smoke, "Harness_P08": Harness_P08, "Harness_P01": Harness_P01, "Harness_P07": Harness_P07, "Harness_P01L": Harness_P01L, "Harness_P08_Ok": Harness_P08_Ok, "Harness_P01X": Harness_P01X, "Harness_P01R": Harness_P01R, "Harness_P13": Harness_P13, "Harness_P10": Harness_P10, "Harness_P09": Harness_P09, "Harness_P14": Harness_P14, "Harness_P12": Harness_P12, "Harness_P20": Harness_P20, "Harness_P10R": Harness_P10R, "Harness_P18": Harness_P18, "Harness_P13M": Harness_P13M, "Harness_P01Y": Harness_P01Y}
 
 // Harness_Pipe_Smoke: two fixed programs, one with an unguarded dereference of a nil local, one guarded.
 func Harness_Pipe_Smoke() {
